@@ -360,6 +360,20 @@ class Engine(
 
     def append_binary(self, operation: BinaryOperation, lhs: Relation, rhs: Relation) -> Select:
         # Docstring inherited.
+        kept: Relation | None = None
+        match operation:
+            case IgnoreOne(ignore_lhs=ignore_lhs):
+                kept = rhs if ignore_lhs else lhs
+            case Join(predicate=predicate) if predicate.as_trivial() is True:
+                if lhs.is_join_identity:
+                    kept = rhs
+                elif rhs.is_join_identity:
+                    kept = lhs
+        if kept is not None and kept.engine != self:
+            # The result is just the other operand, which belongs to a
+            # different engine; it must not be wrapped in one of this engine's
+            # Select markers.
+            return kept  # type: ignore[return-value]
         conformed_lhs = self.conform(lhs)
         conformed_rhs = self.conform(rhs)
         return self._append_binary_to_select(operation, conformed_lhs, conformed_rhs)
